@@ -140,7 +140,7 @@ func execXk(netsS, rootS, opsS string, quiet bool) string {
 				} else {
 					push(k.Neuter())
 				}
-			case 'p':
+			case 'p', 'd':
 				if len(parts) != 2 {
 					return "bad-op"
 				}
@@ -151,6 +151,11 @@ func execXk(netsS, rootS, opsS string, quiet bool) string {
 				if k == nil {
 					regs = append(regs, nil)
 				} else {
+					if op[0] == 'd' {
+						// DerivePublicKeyFromPath first (its value is compared by xk.dpub): for the history it must be
+						// a pure read, so the model treats `d` exactly like `p`
+						_, _ = k.DerivePublicKeyFromPath(string(p))
+					}
 					push(k.DeriveChildFromPath(string(p)))
 				}
 			case 't':
